@@ -284,6 +284,9 @@ func (s *c16Side) exchange(c *Ctx, storeName string, q *c16Request, nontrivialSt
 	}
 	s.n++
 	c.R.Count("requests: "+q.Gen, 1)
+	if q.chunked() {
+		c.R.Count("requests sent without a declared body length (chunked)", 1)
+	}
 	c.R.Count(fmt.Sprintf("answers: %s %dxx", s.name, w.Code/100), 1)
 	hasInput := strings.ContainsAny(q.Target, "?") || q.Body != nil || strings.Contains(abs.Pattern, ":")
 	c.R.Case(s.name+"|"+storeName+"|"+q.opLine(), nontrivialStore && hasInput && abs.Kind == "route")
